@@ -82,9 +82,51 @@ def docs(rng, tier):
         yield 3, b'[{"k":[' * 30000
 
 
+def big_doc(rng, nest, shape):
+    """a document of exactly `nest` levels whose answers are computed here (the Lean specification oracle is too slow
+    beyond a few hundred levels): every level is `[` or `{"k":` (+ white space), the innermost value a scalar or an empty
+    container.  Returns (text, answer-for-limit-D function)."""
+    openers, kinds = [], []
+    for i in range(nest):
+        if shape == "arr-then-obj":
+            obj = i >= nest // 2
+        elif shape == "obj-then-arr":
+            obj = i < nest // 2
+        else:
+            obj = rng.chance(0.5)
+        w = rng.choice([b"", b"", b" ", b"\n"])
+        openers.append((b'{"k":' if obj else b"[") + w)
+        kinds.append(obj)
+    leaf, leafdump = rng.choice([(b"1", "i1"), (b"[]", "[]"), (b"{}", "{}"), (b"null", "n")])
+    text = b"".join(openers) + leaf + b"".join(b"}" if o else b"]" for o in reversed(kinds))
+    dump = "".join("{6b:" if o else "[" for o in kinds) + leafdump + "".join("}" if o else "]" for o in reversed(kinds))
+
+    def answer(D):
+        deep = None
+        if nest >= D:
+            deep = sum(len(o) for o in openers[:D])
+        return {"valid": True, "nest": nest, "fits": True, "knf": True, "deep": deep, "dump": dump}
+    return text, answer
+
+
+def big_docs(rng, tier):
+    # limits well above the default and above any fixed cap or allocation chunk an implementation might introduce; levels
+    # entered through array elements and through object members (round-6 seeds C15-9, C15-10)
+    plan = [(300, s) for s in ("arr-then-obj", "obj-then-arr", "mixed")] + [(600, "arr-then-obj"), (600, "mixed"), (1030, "obj-then-arr"),
+            (12000, "mixed")]
+    if tier == "thorough":
+        plan += [(513, "mixed"), (2049, "arr-then-obj"), (20000, "obj-then-arr"), (70000, "mixed")]
+    for D, shape in plan:
+        for nest in (D - 2, D - 1, D, D + 1):
+            t, ans = big_doc(rng, nest, shape)
+            yield D, t, ans(D)
+
+
 def gen(rng, tier):
     items = list(docs(rng, tier))
     ans = tokoracle.ask_docs(items)
+    for D, t, a in big_docs(rng, tier):
+        items.append((D, t)); ans.append(a)
     for (D, t), a in zip(items, ans):
         if not a["valid"]:
             # unterminated hostile input: only safety matters (stack bounds under ASan); expect the depth error if it is deep enough
